@@ -90,4 +90,51 @@ def iterTab (epoch start stop : Int) (datesGiven stepGiven listening : Bool) (rs
              posOrderArg := match pos with | some p => ephemOrderArgPos p.length | none => none,
              calls := rs.length - rs2.length }
 
+/-! ### the object graph of an output, and interleaved requests on its points
+
+Every point `_iter` yields is an `Orbit` carrying a propagator object (`orb.as_orbit(...)`); `propagate()` returns the single
+point of such an output.  A propagator is stateful: `Orbit.iter()` / `Orbit.propagate()` bind it to the calling orbit
+(`self.propagator.orbit = self`) when they are CALLED, while `NumericalPropagator.iter` is a generator that reads
+`self.orbit` only when it is first CONSUMED.  Object identities are natural numbers handed out by a counter. -/
+
+/-- identities of the propagators carried by the `n` points of one output of a receiver `recv`, `next` being the first free
+identity (`pointPropId` is translated from the position of `self.copy()` relative to the yield loop) -/
+def outputProps (recv next n : Nat) : List Nat := (List.range n).map (pointPropId recv next)
+
+/-- successive outputs of the same receiver: the counter advances by what each output allocated -/
+def outputsProps (recv : Nat) : Nat → List Nat → List (List Nat)
+  | _, [] => []
+  | next, n :: ns => outputProps recv next n :: outputsProps recv (next + propsAllocated n) ns
+
+/-- requests on orbits `0, 1, …` (orbit `i` carries the propagator `pOf i`) -/
+inductive Req where
+  /-- `it_i = orbit_i.iter(...)`: binds now, integrates later -/
+  | create (i : Nat)
+  /-- first `next(it_i)`: the generator starts and reads `self.orbit` -/
+  | consume (i : Nat)
+  /-- `orbit_i.propagate(date)`: binds and integrates at once -/
+  | propagate (i : Nat)
+deriving DecidableEq, Repr
+
+/-- which orbit each propagator is bound to; replies: the orbit whose trajectory a `consume` / `propagate` returns -/
+def runReqs (pOf : Nat → Nat) : (Nat → Option Nat) → List Req → List (Option Nat)
+  | _, [] => []
+  | b, .create i :: rs => runReqs pOf (fun p => if p = pOf i then some i else b p) rs
+  | b, .consume i :: rs => b (pOf i) :: runReqs pOf b rs
+  | b, .propagate i :: rs => some i :: runReqs pOf (fun p => if p = pOf i then some i else b p) rs
+
+/-- the replies a history SHOULD give: every request returns the trajectory of its own orbit -/
+def ownReplies : List Req → List (Option Nat)
+  | [] => []
+  | .create _ :: rs => ownReplies rs
+  | .consume i :: rs => some i :: ownReplies rs
+  | .propagate i :: rs => some i :: ownReplies rs
+
+/-- every `consume i` comes after a `create i` -/
+def wellFormed : List Nat → List Req → Bool
+  | _, [] => true
+  | made, .create i :: rs => wellFormed (i :: made) rs
+  | made, .consume i :: rs => made.contains i && wellFormed made rs
+  | made, .propagate _ :: rs => wellFormed made rs
+
 end BeyondVerif.KNIter
